@@ -65,13 +65,20 @@ def perturbations(value, tol):
         yield 'error-changed', other, True
 
 
-def validate(path, outputs, tol, plugins_=None):
+def validate(path, outputs, tol, plugins_=None, sheet=None):
     from pycel.excelcompiler import ExcelCompiler
     buf = io.StringIO()
     with contextlib.redirect_stdout(buf):
         m = ExcelCompiler(filename=path, plugins=plugins_)
-        rep = m.validate_calcs(output_addrs=outputs, tolerance=tol)
+        if sheet is not None:
+            rep = m.validate_calcs(sheet=sheet, tolerance=tol)
+        else:
+            rep = m.validate_calcs(output_addrs=outputs, tolerance=tol)
     return rep
+
+
+def _outs(outs):
+    return (outs,)
 
 
 def ancestors_incl(deps, outs):
@@ -99,6 +106,12 @@ def work(job):
         arr_cells = [a for a in fam['cells'] if a not in W.constant_cells(spec) and a not in fcells]
         allf = fcells + arr_cells
         out_choices = [None] + [[a] for a in allf] + [list(p) for p in itertools.combinations(allf[:4], 2)]
+        if len(spec['sheets']) > 1:
+            # validate_calcs(sheet=...): the formulas of one sheet are the outputs
+            for sh in spec['sheets']:
+                on = [a for a in allf if W.split_addr(a)[0] == sh]
+                if on:
+                    out_choices.append(('sheet', sh, on))
         path = os.path.join(tmp, 'clean.xlsx')
         W.write_xlsx(spec, path, clean)
         # (a) unperturbed
@@ -107,7 +120,7 @@ def work(job):
                 acc.add('evaluations')
                 acc.add('states')
                 try:
-                    rep = validate(path, outs, tol)
+                    rep = validate(path, *_outs(outs), tol) if not isinstance(outs, tuple) else validate(path, None, tol, sheet=outs[1])
                 except Exception as exc:
                     acc.violation(dict(base, verdict='raised', pert=None, tol=tol, outputs=outs,
                                        outputs_kind='all' if outs is None else len(outs), exc=type(exc).__name__),
@@ -129,14 +142,15 @@ def work(job):
                     stored[P] = newv
                     W.write_xlsx(spec, ppath, stored)
                     for outs in out_choices:
-                        reach = P in (ancestors_incl(deps, outs) if outs is not None else set(allf))
+                        olist = outs[2] if isinstance(outs, tuple) else outs
+                        reach = P in (ancestors_incl(deps, olist) if olist is not None else set(allf))
                         acc.add('evaluations')
                         acc.add('distinct_nontrivial')
                         acc.add('transitions')
                         case = dict(base, cell=P, pert=pname, newv=newv, tol=tol, outputs=outs,
                                     outputs_kind='all' if outs is None else len(outs), beyond=beyond, reach=reach)
                         try:
-                            rep = validate(ppath, outs, tol)
+                            rep = validate(ppath, outs, tol) if not isinstance(outs, tuple) else validate(ppath, None, tol, sheet=outs[1])
                         except Exception as exc:
                             acc.violation(dict(case, verdict='raised', exc=type(exc).__name__),
                                           f"{fam['name']}: {P} stored {newv!r}: validate_calcs raised {type(exc).__name__}: {str(exc)[:160]}")
@@ -230,7 +244,7 @@ def run(ctx):
     tols = TOLS if ctx.thorough else [None, 0.01]
     if not ctx.thorough:
         keep = ('chain', 'diamond', 'fan_range', 'nested', 'two_sheets', 'names', 'cse', 'types', 'if', 'errformula',
-                'mixed_range', 'bigvals', 'range_of_formulas', 'zero_results', 'unbounded', 'lookup', 'sheet_range_name')
+                'mixed_range', 'bigvals', 'range_of_formulas', 'zero_results', 'unbounded', 'lookup', 'sheet_range_name', 'unbounded_formulas', 'single_row_unbounded', 'cse2')
         fams = [f for f in fams if f['name'] in keep]
     k = ctx.seed % len(fams)
     jobs = [(f, tols) for f in fams[k:] + fams[:k]]
@@ -256,7 +270,8 @@ def replay(case):
             stored[case['cell']] = case['newv']
         path = os.path.join(tmp, 'r.xlsx')
         W.write_xlsx(spec, path, stored)
-        rep = validate(path, case['outputs'], case['tol'])
+        o = case['outputs']
+        rep = validate(path, o, case['tol']) if not (isinstance(o, list) and o and o[0] == 'sheet') else validate(path, None, case['tol'], sheet=o[1])
         txt = (f"workbook {fam['name']} {spec['sheets']}\n stored results {stored}\n validate_calcs(outputs={case['outputs']}, "
                f"tolerance={case['tol']}) -> {rep}")
         if case.get('cell'):
